@@ -4,6 +4,7 @@
 //! A group is the lower-case property id; a module may look at a 5th argument for sub-groups.
 mod common;
 mod c01;
+mod c01w;
 mod c02;
 mod c03;
 mod c04;
